@@ -66,7 +66,14 @@ def instances(tier, seed):
         for k, n in seq:
             for ap in ((False, True) if t == 'UNORDERED_NOREPL' else (False,)):
                 out.append(dict(label=f'sequential {t} k={k} n={n} allperm={ap}', kind='seq', type=t, ns=[n]*k, allperm=ap))
+    for t in TYPES:
+        for act in ([0, 2], [0, 1], [1, 2]):
+            out.append(dict(label=f'sequential {t} k=3 n=4 active={act}', kind='seq', type=t, ns=[4, 4, 4], allperm=False, active=act))
+        if tier == 'thorough':
+            out.append(dict(label=f'sequential {t} k=4 n=4 active=[0, 3]', kind='seq', type=t, ns=[4, 4, 4, 4], allperm=False, active=[0, 3]))
+            out.append(dict(label=f'sequential {t} k=4 n=4 active=[0, 2, 3]', kind='seq', type=t, ns=[4, 4, 4, 4], allperm=False, active=[0, 2, 3]))
     out.append(dict(label='sequential PERMUTATION ns=2,3', kind='seq', type='PERMUTATION', ns=[2, 3], allperm=False))
+    out.append(dict(label='sequential PERMUTATION ns=2,3,3', kind='seq', type='PERMUTATION', ns=[2, 3, 3], allperm=False))
     out.append(dict(label='sequential PERMUTATION ns=3,2,3', kind='seq', type='PERMUTATION', ns=[3, 2, 3], allperm=False))
     out.append(dict(label='sequential PERMUTATION k=3 n=2 (too few options)', kind='seq', type='PERMUTATION', ns=[2, 2, 2], allperm=False))
     for t in TYPES:
@@ -75,6 +82,7 @@ def instances(tier, seed):
         out.append(dict(label=f'dsg_sequential {t} hier k=2 n=3', kind='dsg', type=t, k=2, n=3, placement='hier'))
         out.append(dict(label=f'dsg_sequential {t} hier_rev k=2 n=3', kind='dsg', type=t, k=2, n=3, placement='hier_rev'))
         out.append(dict(label=f'dsg_sequential {t} mutex k=2 n=2', kind='dsg', type=t, k=2, n=2, placement='mutex'))
+        out.append(dict(label=f'dsg_sequential {t} mid_cond k=3 n=4', kind='dsg', type=t, k=3, n=4, placement='mid_cond'))
         if tier == 'thorough':
             out.append(dict(label=f'dsg_sequential {t} hier k=3 n=3', kind='dsg', type=t, k=3, n=3, placement='hier'))
             out.append(dict(label=f'dsg_sequential {t} hier_rev k=3 n=3', kind='dsg', type=t, k=3, n=3, placement='hier_rev'))
@@ -84,6 +92,7 @@ def instances(tier, seed):
         out.append(dict(label=f'linked_dv cont k={k}', kind='linked_dv', k=k, disc=None))
     out.append(dict(label='linked_dv disc n=3 k=2', kind='linked_dv', k=2, disc=3))
     out.append(dict(label='linked_dv disc n=2 k=3', kind='linked_dv', k=3, disc=2))
+    out.append(dict(label='linked_dv disc ns=4,2,4 (clamped into own range)', kind='linked_dv', k=3, disc=[4, 2, 4]))
     return out
 
 
@@ -246,15 +255,17 @@ def _mk_constraint(t, ns):
 def _completions(t, ns, partial, avail=None):
     """all full tuples extending `partial` (dict choice->option) that satisfy the predicate"""
     out = []
-    rng = [([partial[i]] if i in partial else list(range(n))) for i, n in enumerate(ns)]
+    rng = [([partial[i]] if i in partial else list(range(n))) for i, n in enumerate(ns)]  # -1 = inactive, kept as is
     for tup in itertools.product(*rng):
         if pred_py(t, list(tup)):
             out.append(tup)
     return out
 
 
-def _seq_harness(t, ns, allperm, order_sym, picks_sym):
-    """one symbolic history: returns ('done', tuple, order) | ('dead', partial, order)"""
+def _seq_harness(t, ns, allperm, order_sym, picks_sym, active=None):
+    """one symbolic history: returns ('done', tuple, order) | ('dead', partial, order).
+    active: indices of the constrained choices that become active (and are taken) in this architecture; the others are
+    never taken and stay -1 (choices that are not active together are unconstrained)"""
     from adsg_core.graph.choice_constraints import get_constraint_removed_options, get_constraint_pre_removed_options
     con, nodes, options = _mk_constraint(t, ns)
     k = len(ns)
@@ -265,8 +276,9 @@ def _seq_harness(t, ns, allperm, order_sym, picks_sym):
         avail[i] = [o for o in avail[i] if options[i][o] not in removed]
     taken = {}
     order = []
-    for step in range(k):
-        remaining = [i for i in range(k) if i not in taken]
+    act_set = list(range(k)) if active is None else list(active)
+    for step in range(len(act_set)):
+        remaining = [i for i in act_set if i not in taken]
         c = remaining[order_sym[step]]  # symbolic index -> concretised (engine forks over all remaining choices)
         order.append(c)
         if len(avail[c]) == 0:
@@ -278,7 +290,7 @@ def _seq_harness(t, ns, allperm, order_sym, picks_sym):
             if i in taken:
                 continue
             avail[i] = [x for x in avail[i] if options[i][x] not in removed]
-    return 'done', tuple(taken[i] for i in range(k)), order
+    return 'done', tuple(taken.get(i, -1) for i in range(k)), order
 
 
 def native_seq(t, ns, allperm, order_idx, pick_idx):
@@ -287,16 +299,18 @@ def native_seq(t, ns, allperm, order_idx, pick_idx):
 
 def _run_seq(inst, res):
     t, ns, ap = inst['type'], inst['ns'], inst['allperm']
+    active = inst.get('active')
     k = len(ns)
-    order_sym = [sym_int(f'ord{i}') for i in range(k)]
-    picks_sym = [sym_int(f'pick{i}') for i in range(k)]
+    ka = k if active is None else len(active)
+    order_sym = [sym_int(f'ord{i}') for i in range(ka)]
+    picks_sym = [sym_int(f'pick{i}') for i in range(ka)]
     pre = []
-    for i in range(k):
-        pre += [order_sym[i].e >= 0, order_sym[i].e < k-i, picks_sym[i].e >= 0, picks_sym[i].e < max(ns)]
+    for i in range(ka):
+        pre += [order_sym[i].e >= 0, order_sym[i].e < ka-i, picks_sym[i].e >= 0, picks_sym[i].e < max(ns)]
 
     def run():
         try:
-            return _seq_harness(t, ns, ap, order_sym, picks_sym)
+            return _seq_harness(t, ns, ap, order_sym, picks_sym, active=active)
         except IndexError:
             return 'nopick', None, None  # pick index beyond the options still available: not a history
     ex = explore(run, pre=pre, time_cap_s=INSTANCE_CAP_S, max_paths=50000)
@@ -306,9 +320,8 @@ def _run_seq(inst, res):
         res['notes'].append(ex.status)
         return
     require_exhaustive(res, ex)
-    want_all = set(_completions(t, ns, {}))
-    if t == 'UNORDERED_NOREPL' and ap:
-        pass  # same predicate on original indices; pre-removal only prunes dead ends
+    inactive = {} if active is None else {i: -1 for i in range(k) if i not in active}
+    want_all = set(_completions(t, ns, dict(inactive)))
     reached_by_order = {}
     n_hist = 0
     for p in ex.paths:
@@ -332,7 +345,7 @@ def _run_seq(inst, res):
         else:
             reached_by_order.setdefault(tuple(order[:len(val)]), set())
             # a dead end is only allowed where the partial assignment has no completion
-            comp = _completions(t, ns, val)
+            comp = _completions(t, ns, {**val, **inactive})
             if comp and ap is False and t in ('LINKED', 'UNORDERED'):
                 _viol(res, 'sequential', dict(kind='silent_drop', type=t, ns=ns, allperm=ap), dict(type=t, ns=ns, allperm=ap),
                       dict(order=order, partial={str(a): b for a, b in val.items()}), 'choice left without options',
@@ -345,7 +358,7 @@ def _run_seq(inst, res):
                 res['discharged'] += 1
         res['validated'] += 1
     # completeness per order
-    full_orders = [o for o in itertools.permutations(range(k))]
+    full_orders = [o for o in itertools.permutations(range(k) if active is None else active)]
     for o in full_orders:
         got = reached_by_order.get(o, set())
         res['obligations'] += 1
@@ -391,7 +404,13 @@ def _mk_dsg(t, k, n, placement):
         opts.append([NamedNode(f'O{i}_{j}') for j in range(n)])
     extra = None
     par = _parents(k, placement)
-    if placement == 'mutex':
+    if placement == 'mid_cond':
+        # choices 0 and k-1 permanent, the ones in between hang under option 1 of an extra (unconstrained) choice
+        xo = [NamedNode('X0'), NamedNode('X1')]
+        extra = (g.add_selection_choice('A_X', root, xo), xo)
+        for i in range(k):
+            g.add_edges([((xo[1] if 0 < i < k-1 else root), parents[i])])
+    elif placement == 'mutex':
         xo = [NamedNode(f'X{j}') for j in range(k)]
         extra = (g.add_selection_choice('A_X', root, xo), xo)
         for i in range(k):
@@ -422,6 +441,13 @@ def _dsg_oracle(t, k, n, placement):
                 tup = [-1]*k
                 tup[i] = o
                 out.add(tuple(tup))
+        return out
+    if placement == 'mid_cond':
+        for xsel in (0, 1):
+            rng = [(range(n) if (xsel == 1 or i in (0, k-1)) else [-1]) for i in range(k)]
+            for tup in itertools.product(*rng):
+                if pred_py(t, list(tup)):
+                    out.add(tuple(tup))
         return out
     par = _parents(k, placement)
     for tup in itertools.product(range(-1, n), repeat=k):
@@ -463,7 +489,7 @@ def _dsg_history(t, k, n, placement, which_sym, pick_sym):
 
 def _run_dsg(inst, res):
     t, k, n, placement = inst['type'], inst['k'], inst['n'], inst['placement']
-    n_steps = k+(1 if placement == 'mutex' else 0)
+    n_steps = k+(1 if placement in ('mutex', 'mid_cond') else 0)
     which = [sym_int(f'w{i}') for i in range(n_steps)]
     pick = [sym_int(f'p{i}') for i in range(n_steps)]
     pre = []
@@ -560,7 +586,11 @@ def _run_linked_dv(inst, res):
 
             def nat(specs, stored_n, src):
                 return all(s_ == stored_n[src] for s_ in stored_n)
-            c16._set_harness(res, [('d', disc)]*k, list(range(k)), k-1, 'int', extra_claim=same_idx, label=inst['label'], native_extra=nat)
+            if isinstance(disc, list):
+                # different option counts: "the same option index" is only possible up to clamping into the own range
+                c16._set_harness(res, [('d', n_) for n_ in disc], list(range(k)), 0, 'int', label=inst['label'])
+            else:
+                c16._set_harness(res, [('d', disc)]*k, list(range(k)), k-1, 'int', extra_claim=same_idx, label=inst['label'], native_extra=nat)
     finally:
         c16._PROP_OVERRIDE[0] = None
 
